@@ -243,7 +243,7 @@ CHECKS["C09"] = {
             "10-message vocabulary, whole and byte-at-a-time; (messages) all 4096 STUN message types alone and with each of 253 attribute scripts (23 attribute types incl. unknown comprehension-required/optional x value lengths "
             "{0,1,3,4,5,8,19,20,21} + overrun-by-1 + overrun-to-0xFFFF), the 8 handled types with every ordered PAIR of scripts, each unsigned and signed with valid credentials; (client) Client.HandleInbound on the header quotient "
             "from the server address and from another address against the documented handled/error table; (client-bursts, shared with C13) a client holding an allocation is fed 1100 / 3000 Data indications with no or a slow reader, "
-            "12 ConnectionAttempt indications with nobody accepting, ChannelData/Data payloads of every length 0..24 with and without a leading magic cookie, and must keep reading; (client-states) the inbound messages of a TURN server (Data indication, ChannelData on bound / unbound numbers, ConnectionAttempt, responses to no transaction, requests; whole, empty, attributes missing, every truncation at and next to a 4-byte boundary) in every state of the relayed socket {open, channel bound, closed, closed twice, closed and allocated again, then the old socket closed once more} x UDP/TCP allocation: the read loop is back at its socket after each; (client-lifetimes) Allocate success responses granting LIFETIME {0,1,2,3,600,2^32-1} to a UDP / TCP allocation: the client reaches quiescence and sends at most 25 requests in the next 10 s; (client-stream) the real client with Listen running over turn.NewSTUNConn on a simnet stream is sent one validly framed hostile frame "
+            "12 ConnectionAttempt indications with nobody accepting, ChannelData/Data payloads of every length 0..24 with and without a leading magic cookie, and must keep reading; (client-states) the inbound messages of a TURN server (Data indication, ChannelData on bound / unbound numbers, ConnectionAttempt, responses to no transaction, requests; whole, empty, attributes missing, every truncation at and next to a 4-byte boundary) in every state of the relayed socket {open, channel bound, closed, closed twice, closed and allocated again, then the old socket closed once more} x UDP/TCP allocation: the read loop is back at its socket after each; (client-lifetimes) Allocate success responses granting LIFETIME {0,1,2,3,600,2^32-1} to a UDP / TCP allocation: the client reaches quiescence and sends at most 25 requests in the next 10 s; (client-sched, Engine B) a TCP allocation closed by the application while ConnectionAttempt indications for it arrive, every interleaving up to the preemption bound: no panic, Close returns, a Binding transaction completes afterwards; (client-stream) the real client with Listen running over turn.NewSTUNConn on a simnet stream is sent one validly framed hostile frame "
             "(STUN success / indication / request or ChannelData in and beyond the bound range x declared length in 21 classes up to 0xFFFF x {whole, 1000-byte segments, byte at a time} x 2 contents) "
             "and must then complete a Binding transaction. (tls) a TLS listener (crypto/tls over simnet, virtual time): after each hostile connection that sends nothing / a partial record header / a record header announcing 16 KiB / clear-text STUN / garbage and stays open, a fresh party must complete its handshake and a Binding transaction within 2 s. Oracle: no panic in any goroutine (process survival), every batch reaches quiescence (no spin / wedge), then a liveness probe: "
             "Binding from the same source answered, a pre-existing victim allocation still relays in both directions and still refreshes. A class is (part, source, shape) -> served.",
@@ -255,6 +255,7 @@ CHECKS["C09"] = {
               A("client-stream", "./checks/c09", "TestC09ClientStream", budget={"quick": 60, "thorough": 600}, hard_timeout={"quick": 240, "thorough": 1500}),
               A("client-states", "./checks/c13", "TestC09ClientStates", budget={"quick": 60, "thorough": 120}),
               A("client-lifetimes", "./checks/c13", "TestC09ClientLifetimes", budget={"quick": 60, "thorough": 120}),
+              A("client-sched", "./checks/bsem", "TestC09ClientSched", overlay=True, gomaxprocs=1, budget={"quick": 60, "thorough": 300}),
               A("client-bursts", "./checks/c13", "TestC13Stress", budget={"quick": 60, "thorough": 120}, hard_timeout={"quick": 240, "thorough": 600})],
 }
 
